@@ -1,6 +1,6 @@
 """Contracts for pygamma_agreement/continuum.py (tier B: heap objects, abstract views, frames)."""
 from pyvc.contract import (contract, cl, GhostFun, Macro, Lemma, NdArray, ListOf, IntT, RealT, BoolT, TupleOf, FnT, OptT)
-from pyvc.heap import ObjT, UnitT
+from pyvc.heap import ObjT, UnitT, OptObjT
 from .types import StrT, SegT
 from .speclib import VIEW_MACROS, PSUM_LEMMAS
 
@@ -135,6 +135,87 @@ contract(F + "Continuum.reset_bounds",
                   cl("RI(self)", name="RI")],
          serves={"C13"})
 
+# ------------------------------------------------------------------------------------------ iteration (C13, C18, C17 ...)
+# the i-th yielded pair has flat index i = (number of units of the annotators before its annotator) + (its rank among the
+# units of its annotator): annotators ascending, units ascending, each exactly once
+ITER_MACROS = VIEW_MACROS + [
+    Macro("offs", ["c", "k"], "psum(lam(i, Cnt(c)[Kseq(c)[i]]), k)"),
+    Macro("flat", ["c", "a", "u"], "psum(lam(i, Cnt(c)[Kseq(c)[i]]), Kidx(c)[a]) + Uidx(c)[a][u]"),
+]
+ITER_LEMMAS = [
+    Lemma("offs_monotone", "offs(self, k1) <= offs(self, k2)", binders=[("k1", "Int"), ("k2", "Int")],
+          hyps=["0 <= k1", "k1 <= k2", "k2 <= Nkeys(self)", "wfmap(self)"], method=("induction", "k2", "k1")),
+    Lemma("flat_lt_total", "0 <= flat(self, a, u) and flat(self, a, u) < NumUnits(self)",
+          binders=[("a", "Real"), ("u", "Unit")], hyps=["wfmap(self)", "Us(self)[a][u]"],
+          hints=["offs(self, Kidx(self)[a] + 1) == offs(self, Kidx(self)[a]) + Cnt(self)[a]",
+                 "offs(self, Kidx(self)[a] + 1) <= offs(self, Nkeys(self))"]),
+    Lemma("flat_injective", "a == a2 and u == u2",
+          binders=[("a", "Real"), ("u", "Unit"), ("a2", "Real"), ("u2", "Unit")],
+          hyps=["wfmap(self)", "Us(self)[a][u]", "Us(self)[a2][u2]", "flat(self, a, u) == flat(self, a2, u2)"],
+          hints=["offs(self, Kidx(self)[a] + 1) == offs(self, Kidx(self)[a]) + Cnt(self)[a]",
+                 "offs(self, Kidx(self)[a2] + 1) == offs(self, Kidx(self)[a2]) + Cnt(self)[a2]",
+                 "implies(Kidx(self)[a] < Kidx(self)[a2], offs(self, Kidx(self)[a] + 1) <= offs(self, Kidx(self)[a2]))",
+                 "implies(Kidx(self)[a2] < Kidx(self)[a], offs(self, Kidx(self)[a2] + 1) <= offs(self, Kidx(self)[a]))",
+                 "Kidx(self)[a] == Kidx(self)[a2]"]),
+]
+
+contract(F + "Continuum.__iter__",
+         params={"self": CONT()}, returns=TupleOf(StrT(), UnitT()), macros=ITER_MACROS, lemmas=ITER_LEMMAS,
+         yields=[cl("Ann(self)[yielded[0]] and Us(self)[yielded[0]][yielded[1]]", "C13 C17 C18", name="a-unit-of-the-continuum"),
+                 cl("nyield == flat(self, yielded[0], yielded[1])", "C13 C17 C18", name="in-order-each-once")],
+         count="NumUnits(self)",
+         loops={"L0": dict(match="for annotator, annotations in self._annotations.items()",
+                           inv=["nyield == offs(self, kA)"], index="kA"),
+                "L0.0": dict(match="for unit in annotations", index="jU",
+                             inv=["nyield == offs(self, kA) + jU", "Kidx(self)[annotator] == kA", "Ann(self)[annotator]"])},
+         hooks=[("before", "for annotator, annotations in self._annotations.items(): ...", "model_inv wfmap(self)")],
+         serves={"C13", "C17", "C18", "C14", "C15", "C19"})
+
+contract(F + "Continuum.iter_annotator",
+         params={"self": CONT(), "annotator": StrT()}, returns=UnitT(), macros=ITER_MACROS,
+         raises={"KeyError": {"iff": "not Ann(self)[annotator]"}},
+         yields=[cl("Us(self)[annotator][yielded]", "C13 C16 C19", name="a-unit-of-the-annotator"),
+                 cl("nyield == Uidx(self)[annotator][yielded] and yielded == Useq(self)[annotator][nyield]", "C13 C16 C19",
+                    name="ascending-each-once")],
+         count="Cnt(self)[annotator]",
+         loops={"L0": dict(match="for unit in self._annotations[annotator]", index="jU", inv=["nyield == jU"])},
+         serves={"C13", "C16", "C19"})
+
+# ------------------------------------------------------------------------------------------ merge / __add__  (C13, C14)
+MERGE_MACROS = ITER_MACROS + [
+    Macro("T", [], "current_cont"),
+    Macro("added", ["a", "u", "i"], "Us(continuum)[a][u] and flat(continuum, a, u) < i"),
+    Macro("merged_upto", ["X", "i"],
+          "forall([(a, Real)], Ann(X)[a] == (old(Ann(self))[a] or Ann(continuum)[a])) and "
+          "forall([(a, Real), (u, Unit)], Us(X)[a][u] == (old(Us(self))[a][u] or added(a, u, i))) and "
+          "forall([(l, Real)], Cat(X)[l] == (old(Cat(self))[l] or exists([(a, Real), (u, Unit)], added(a, u, i) and u.haslab and u.lab == l))) and "
+          "X.bound_inf <= old(self.bound_inf) and forall([(a, Real), (u, Unit)], implies(added(a, u, i), X.bound_inf <= u.s)) and "
+          "(X.bound_inf == old(self.bound_inf) or exists([(a, Real), (u, Unit)], added(a, u, i) and X.bound_inf == u.s)) and "
+          "X.bound_sup >= old(self.bound_sup) and forall([(a, Real), (u, Unit)], implies(added(a, u, i), X.bound_sup >= u.e)) and "
+          "(X.bound_sup == old(self.bound_sup) or exists([(a, Real), (u, Unit)], added(a, u, i) and X.bound_sup == u.e)) and "
+          "X.best_window_size == old(self.best_window_size) and RI(X)"),
+]
+
+contract(F + "Continuum.merge",
+         params={"self": CONT(), "continuum": CONT(), "in_place": BoolT()}, returns=OptObjT(CONT()),
+         modifies=["self"], macros=MERGE_MACROS,
+         requires=["RI(self)", "RI(continuum)", "not same_obj(self, continuum)"],
+         ensures=[cl("implies(in_place, isnone(result) and merged_upto(self, NumUnits(continuum)))", "C13", name="in-place-merges-into-self"),
+                  cl("implies(not in_place, not isnone(result) and fresh_obj(some(result)) and disjoint_state(some(result), self) and "
+                     "disjoint_state(some(result), continuum) and merged_upto(some(result), NumUnits(continuum)))", "C13 C14",
+                     name="out-of-place-returns-the-same-merge"),
+                  cl("implies(not in_place, same_view(self))", "C13 C14", name="out-of-place-leaves-self")],
+         loops={"L0": dict(match="for annotator in continuum.annotators", modifies=["current_cont"], index="kA",
+                           inv=["forall([(a, Real)], Ann(T())[a] == (old(Ann(self))[a] or "
+                                "(Ann(continuum)[a] and Kidx(continuum)[a] < kA)))",
+                                "forall([(a, Real), (u, Unit)], Us(T())[a][u] == old(Us(self))[a][u])",
+                                "Cat(T()) == old(Cat(self)) and T().bound_inf == old(self.bound_inf) and "
+                                "T().bound_sup == old(self.bound_sup) and T().best_window_size == old(self.best_window_size)",
+                                "RI(T())", "implies(not in_place, same_view(self))"]),
+                "L1": dict(match="for annotator, unit in continuum", modifies=["current_cont"], index="iU",
+                           inv=["merged_upto(T(), iU)", "implies(not in_place, same_view(self))"])},
+         hooks=[("before", "for annotator in continuum.annotators: ...", "model_inv wfmap(continuum)")],
+         serves={"C13", "C14"})
 # =========================================================================================================
 # Continuum.get_best_alignment / get_best_soft_alignment        (C01, C02, C03-D4, C08, C11, C14)
 #
